@@ -4,6 +4,7 @@
    answers of count/index for a probe alphabet and of v[a:b:s] for the case's slice probes. *)
 From Coq Require Import List ZArith Bool Arith.
 From Dimod Require Import Base.Util Model.Vars.
+From Dimod Require Export Gen.Gen_VarsCtor.
 Import ListNotations.
 
 Inductive op :=
@@ -13,7 +14,11 @@ Inductive op :=
 | ORelabel (m : list (lab * lab))
 | ORelabelInts
 | ORemove (l : lab)
-| OClear.
+| OClear
+(* the history continues on another object built from the current one *)
+| OCopy                              (* copy() / copy.copy / deepcopy / pickle round trip / Variables(v): same three fields *)
+| OCtor (ls : list lab)              (* Variables(iterable) / v[:]: the labels appended one by one (permissive) to an empty object *)
+| ORangeCtor (a b s : Z).            (* Variables(range(a, b, s)), s <> 0: fast path or generic extension, as cyVariables.__init__ dispatches *)
 
 (* what the implementation showed after the call *)
 Record seen := mkSeen {
@@ -35,6 +40,14 @@ Definition slice_of (v : vars) (q : sliceq) : option (list lab) :=
   let '(a, b, s) := q in
   match getitem_slice v a b s with Ok w => Some (to_list w) | Err => None end.
 
+Definition init_vars (ls : list lab) : vars :=
+  match extend empty ls true with Ok v => v | Err => empty end.
+Definition ctor_range (z : Z) : vars := mkVars [] [] (Z.to_nat z).
+(* cyVariables.__init__ on a range object; the fast path's condition and value are generated from the source
+   (Gen/Gen_VarsCtor.v, translators/vars_ctor.py) *)
+Definition ctor_of_range (a b s : Z) : vars :=
+  if gen_ctor_fast a b s then ctor_range (gen_ctor_stop b) else init_vars (map LI (zrange a b s)).
+
 Definition step (v : vars) (o : op) : vars * bool * option lab :=
   match o with
   | OAppend l p => match append v l p with Ok (v', r) => (v', true, Some r) | Err => (v, false, None) end
@@ -44,6 +57,9 @@ Definition step (v : vars) (o : op) : vars * bool * option lab :=
   | ORelabelInts => (fst (relabel_as_integers v), true, None)
   | ORemove l => match remove v l with Ok v' => (v', true, None) | Err => (v, false, None) end
   | OClear => (empty, true, None)
+  | OCopy => (v, true, None)
+  | OCtor ls => (init_vars ls, true, None)
+  | ORangeCtor a b s => (ctor_of_range a b s, true, None)
   end.
 
 Definition opt_lab_eqb := option_eqb lab_eqb.
@@ -74,8 +90,5 @@ Fixpoint run (probes : list lab) (slices : list sliceq) (v : vars) (steps : list
       let '(v', ok, ret) := step v o in
       agrees probes slices v' ok ret s && run probes slices v' r
   end.
-
-Definition init_vars (ls : list lab) : vars :=
-  match extend empty ls true with Ok v => v | Err => empty end.
 
 Definition check (c : case) : bool := run (c_probes c) (c_slices c) (init_vars (c_init c)) (c_steps c).
